@@ -80,6 +80,10 @@ def main():
     f_neg = {k: pool.submit(vlib.tlc, MC, fn, files={fn: text}, workers=2, timeout=600) for k, (fn, text) in negs.items()}
     genA0 = pool.submit(vlib.tlc, MC, "RenderCtxRegistry_genA.cfg", workers=1, timeout=900)
     genBf = pool.submit(vlib.tlc, MC, "RenderCtxRegistry_genB.cfg", workers=1, timeout=900)
+    # speculative: the predictions for the fully repaired forms (what the probe below usually detects), derived meanwhile
+    all_rep = sorted(TAG2REPAIR.values())
+    genA1 = pool.submit(vlib.tlc, MC, "gA.cfg", files={"gA.cfg": with_repaired(spec_file("RenderCtxRegistry_genA.cfg"), all_rep)},
+                        workers=1, timeout=900)
 
     hd = vlib.harness_dir()
     vlib.templ_generate(os.path.join(hd, "c12"))
@@ -115,6 +119,7 @@ def main():
         raise vlib.InfraError("edge emission A incomplete: %d edges for %d generated states" % (len(edgesA), gA.generated))
     pA = vlib.write_ndjson(os.path.join(sc, "edgesA0.ndjson"), edgesA)
     probe = vlib.Check("C12", "model_checking")
+    vlib.log("probe replay of A (%d edges)" % len(edgesA))
     s0 = vlib.harness_results(probe, replay("edges", pA, "A0"))
     # a form counts as repaired in the code under test as soon as one edge that goes only through that form behaves
     # differently from the as-coded model (edges where both behaviours coincide say nothing).  A wrong guess cannot
@@ -126,7 +131,10 @@ def main():
     ck.set("repaired_in_code_under_test", repaired)
     if repaired:
         vlib.log("re-deriving the predictions for Repaired = %s" % repaired)
-        gA = vlib.tlc(MC, "gA.cfg", files={"gA.cfg": with_repaired(spec_file("RenderCtxRegistry_genA.cfg"), repaired)}, workers=1, timeout=900)
+        if repaired == all_rep:
+            gA = genA1.result()
+        else:
+            gA = vlib.tlc(MC, "gA.cfg", files={"gA.cfg": with_repaired(spec_file("RenderCtxRegistry_genA.cfg"), repaired)}, workers=1, timeout=900)
         edgesA = gA.tagged("EDGE")
         if not gA.ok or len(edgesA) != gA.generated - 3:
             raise vlib.InfraError("edge emission A (repaired forms) incomplete")
@@ -159,8 +167,11 @@ def main():
     ck.set("binding_selftest", "swapped two predicted tokens of one edge -> reported as a mismatch")
 
     # --- GEN: every edge ----------------------------------------------------------------------------
+    vlib.log("replaying %d + %d edges" % (len(edgesA), len(edgesB)))
+    fB = pool.submit(replay, "edges", pB, "B")          # the two replays are independent processes
     sA = vlib.harness_results(ck, replay("edges", pA, "A"))
-    sB = vlib.harness_results(ck, replay("edges", pB, "B"))
+    sB = vlib.harness_results(ck, fB.result())
+    vlib.log("edges replayed")
     if sA["edges"] != len(edgesA) or sB["edges"] != len(edgesB):
         raise vlib.InfraError("harness replayed %d+%d of %d+%d edges" % (sA["edges"], sB["edges"], len(edgesA), len(edgesB)))
     if sA["steps"] != 2 * len(edgesA) or sB["steps"] != 2 * len(edgesB):
